@@ -84,6 +84,11 @@ def fastqCfg (typ : String) (enc : Biogo.Fastq.Encoding) : Biogo.Fastq.Cfg :=
 def lenTag (n : Nat) : String :=
   if n == 0 then "len0" else if n < 4096 then "len<4096" else if n ≤ 8192 then "len4096-8192" else "len>8192"
 
+/-- `sioSource` of harness/props/seqio_util.go: the file is served by one of five
+    `io.Reader` behaviours chosen from its FNV-1a hash; number 3 is `iotest.DataErrReader`,
+    which returns `io.EOF` together with the last data -/
+def eofWithData (bs : Bytes) : Bool := (fnv1a32 bs).toNat % 5 == 3
+
 /-- the calls of a history up to `EOF`: every token is a call -/
 def callTokens (s : String) : List String := tokens s
 
